@@ -19,6 +19,9 @@ static bool g_diverged = false;
 static Model* g_model = nullptr;
 static bool g_delete_inplace = false;
 
+struct Action { int type; int leaf, inst, kind, ctx; };   // type 0: request_stop on the root source, 1: fire a pending event
+static std::vector<Action> g_actions;
+
 static std::string key_str(int leaf, int inst, int kind) {
   if (kind == 2) return vk::sfmt("ctx%d-item#%d", leaf - 900, inst);
   return vk::sfmt("leaf%d#%d%s", leaf, inst, kind == 1 ? "(done-after-stop)" : "");
@@ -104,6 +107,7 @@ void drive(const ShapeDesc& sd, RunCtl& ctl, RunState& rs, const std::function<v
   m.node_arg = plan.node_arg; m.fault_node = plan.fault_node; m.fault_call = plan.fault_call;
   g_model = &m;
   g_delete_inplace = false;
+  g_actions.clear();
   auto running_leaves = [&] { int n = 0; for (auto& v : w.runs) for (auto& r : v) if (r.started && !r.completed) n++; return n; };
   w.request_root_stop = [&] {   // a leaf asks for a stop on the root source from inside its start(); the model leaf does the same on its side
     if (w.root_stop_requested) return;
@@ -116,6 +120,7 @@ void drive(const ShapeDesc& sd, RunCtl& ctl, RunState& rs, const std::function<v
     w.root_stop_requested = true;
     if (running_leaves() > 0) ctl.out.stops_while_running++;
     SR_TR("driver: request_stop() on the root stop source");
+    g_actions.push_back(Action{0, 0, 0, 0, 0});
     real_stop(rs);
     if (model_too) m.request_stop();
   };
@@ -171,6 +176,7 @@ void drive(const ShapeDesc& sd, RunCtl& ctl, RunState& rs, const std::function<v
     int ctx = ev.kind == 2 ? ev.leaf - 900 : plan.spec[(size_t)ev.leaf].at(ev.inst).ctx;
     if (ev.kind != 2) ctl.out.had_deferred = true;
     SR_TR("driver: fire %s", what.c_str());
+    g_actions.push_back(Action{1, ev.leaf, ev.inst, ev.kind, ctx});
     ev.fire(ev.op, ev.kind);
     bool ok = m.fire(ev.leaf, ev.inst, ev.kind, ctx);
     after_step();
@@ -190,6 +196,70 @@ void drive(const ShapeDesc& sd, RunCtl& ctl, RunState& rs, const std::function<v
     if (rs.use_inplace) { if (rs.inplace) rs.inplace->request_stop(); }
     else { bool c = rs.hstop.root_completed; rs.hstop.root_completed = false; rs.hstop.request_stop(); rs.hstop.root_completed = c; }
     after_step();
+  }
+  // ---- anonymous fault (a value copy/move, a connect() or an allocation threw somewhere inside the implementation): the lockstep
+  // comparison is off; instead the finished run must equal the documented behaviour for *some* place at which "the failure is
+  // reported through set_error": one node's start failing, or one node's value completion turning into the injected error
+  if (!g_compare && plan.anon_fault >= 0 && !w.abandoned && !vk::ctx().failed && steps <= 600) {
+    auto real_sum = [&] {
+      std::ostringstream ss;
+      ss << "done=" << (w.root_signals > 0) << " chan=" << w.root.chan << " pay=" << (w.root.chan == sr::VALUE ? w.root.payload : 0) << " err=" << (w.root.chan == sr::ERROR ? w.root.err : 0) << " |";
+      for (size_t l = 0; l < w.runs.size(); ++l) for (size_t i = 0; i < w.runs[l].size(); ++i) { auto& r = w.runs[l][i]; if (r.started) ss << " L" << l << "#" << i << ":" << r.completed << r.stop_seen << r.chan; }
+      ss << " | calls"; std::map<int, int> sorted(w.calls.begin(), w.calls.end()); for (auto& kv : sorted) if (kv.second) ss << " " << kv.first << ":" << kv.second;
+      return ss.str();
+    };
+    auto model_sum = [&](Model& mm) {
+      std::ostringstream ss;
+      ss << "done=" << mm.done << " chan=" << (mm.done ? mm.result.chan : (int)sr::NONE) << " pay=" << (mm.done && mm.result.chan == sr::VALUE ? mm.result.payload : 0) << " err=" << (mm.done && mm.result.chan == sr::ERROR ? mm.result.err : 0) << " |";
+      for (auto& kv : mm.runs) { auto& r = kv.second; if (r.started) ss << " L" << kv.first.first << "#" << kv.first.second << ":" << r.completed << r.stop_seen << r.chan; }
+      ss << " | calls"; for (auto& kv : mm.calls) if (kv.second) ss << " " << kv.first << ":" << kv.second;
+      return ss.str();
+    };
+    const std::string want = real_sum();
+    auto try_candidate = [&](int nid, int mode, int occ, std::string* got) {
+      Model mm(sd, plan.spec);
+      mm.node_arg = plan.node_arg; mm.cand_nid = nid; mm.cand_mode = mode; mm.cand_occ = occ;
+      if (plan.stop_before_start) mm.request_stop();
+      mm.start();
+      for (auto& a : g_actions) {
+        if (a.type == 0) mm.request_stop();
+        else if (!mm.fire(a.leaf, a.inst, a.kind, a.ctx)) return false;
+      }
+      if (!mm.pending().empty() && w.pending.empty()) return false;
+      if (mm.unspecified) return true;   // the documents leave this situation open (when_any under a receiver stop)
+      std::string ms = model_sum(mm);
+      if (got) *got = ms;
+      return ms == want;
+    };
+    bool ok = false; std::string plain;
+    if (!w.fault_fired) ok = try_candidate(-1, 0, 0, &plain);
+    else {
+      ok = try_candidate(-1, 0, 0, &plain);   // a fault without observable consequence (e.g. in a loser of when_any)
+      // which places can be the site of this throw: a value copy/move -> the value completion of a node that produces a value, or
+      // the start of a subtree that holds values in its senders (just, the bound-value leaves, let_value_with); a leaf connect() ->
+      // the start of a subtree containing a harness leaf; an allocation -> the start of a subtree containing allocate()
+      const std::string site = w.fault_site;
+      const bool f_value = site.rfind("Tracked", 0) == 0, f_connect = site == "leaf connect", f_alloc = site == "allocation";
+      std::vector<char> holds_value((size_t)sd.nnodes, 0), holds_leaf((size_t)sd.nnodes, 0), holds_alloc((size_t)sd.nnodes, 0);
+      std::function<void(int)> mark = [&](int idx) {
+        const NodeDesc& n = sd.nodes[idx];
+        int k = n.kind;
+        if (k == K_JUST || k == K_REF || k == K_ERRREF || k == K_LVW || k == K_JUST_FROM) holds_value[(size_t)idx] = 1;
+        if (k == K_LEAF || k == K_LEAFV || k == K_LEAF_AI || k == K_LEAF_ND) holds_leaf[(size_t)idx] = 1;
+        if (k == K_ALLOCATE) holds_alloc[(size_t)idx] = 1;
+        for (int c2 = 0; c2 < n.nchild; ++c2) { mark(n.child[c2]); holds_value[(size_t)idx] |= holds_value[(size_t)n.child[c2]]; holds_leaf[(size_t)idx] |= holds_leaf[(size_t)n.child[c2]]; holds_alloc[(size_t)idx] |= holds_alloc[(size_t)n.child[c2]]; }
+      };
+      mark(sd.root);
+      for (int i = 0; i < sd.nnodes && !ok; ++i) for (int mode = 0; mode < 3 && !ok; ++mode) {
+        bool allowed = mode == 0 ? (f_value && sd.nodes[i].vt == 'V')
+                                 : ((f_value && holds_value[(size_t)i]) || (f_connect && holds_leaf[(size_t)i]) || (f_alloc && holds_alloc[(size_t)i]));
+        if (!allowed) continue;
+        for (int occ = 0; occ < 4 && !ok; ++occ) ok = try_candidate(sd.nodes[i].nid, mode, occ, nullptr);
+      }
+    }
+    vk::ctx().label(w.fault_fired ? "anonymous-fault-explained-by-model" : "anonymous-fault-not-reached(plain model)");
+    if (!ok) SR_FAIL("C05", "fault_outcome_unexplained", "an injected throw (%s, throw point #%ld) %s; the run ended as [%s]; no single place at which that failure is reported through set_error explains it (without any fault the documented behaviour is [%s]) [%s]",
+                     w.fault_site, plan.anon_fault, w.fault_fired ? "fired" : "was planned but not reached", want.c_str(), plain.c_str(), sd.text);
   }
   // snapshot of the model for the end-of-run oracles
   ctl.out.model_done = m.done; ctl.out.model_result = m.result; ctl.out.model_ctx = m.result_ctx;
@@ -222,7 +292,7 @@ void drive(const ShapeDesc& sd, RunCtl& ctl, RunState& rs, const std::function<v
 void end_run(const ShapeDesc& sd, RunCtl& ctl, RunState& rs) {
   sr::World& w = rs.w;
   Outcome& o = ctl.out;
-  o.signals = w.root_signals; o.result = w.root; o.result_ctx = w.root_ctx; o.fault_fired = w.fault_fired;
+  o.signals = w.root_signals; o.result = w.root; o.result_ctx = w.root_ctx; o.fault_fired = w.fault_fired; o.throw_points = w.throw_counter;
   // ---- C01: exactly once / never without start
   if (!o.started && w.root_signals != 0) SR_FAIL("C01", "completion_without_start", "the receiver was completed although the operation was never started [%s]", sd.text);
   if (!g_compare && o.started && !w.abandoned && w.root_signals != 1) SR_FAIL("C01", "completion_count", "the operation was started and all of its leaves completed, but it delivered %d completion signals [%s]", w.root_signals, sd.text);
@@ -342,8 +412,21 @@ void vk_run_case(vk::Choice& c) {
   if (known.find(",when_any_done_first,") != std::string::npos) {
     for (int i = 0; i < sd.nnodes; ++i) if (sd.nodes[i].kind == K_WHEN_ANY) { cx.discard = true; cx.discard_why = "known:when_any_done_first"; return; }
   }
+  if (ctl.plan.anon_fault >= 0 && cx.argi("legacy", 0) == 0) {   // (--legacy=1: replays recorded before the dry run existed throw at point k as recorded)
+    // single-fault injection: a dry run without the fault counts the throwable events N of this case (and is itself checked like
+    // any other case); the faulty run repeats the same event choices and throws at event k mod N
+    long k = ctl.plan.anon_fault; Plan faulty = ctl.plan;
+    ctl.plan.anon_fault = -1;
+    bool tr = cx.tracing; cx.tracing = false;
+    sd.run(sd, ctl);
+    cx.tracing = tr;
+    long n = ctl.out.throw_points;
+    if (cx.failed) { cx.label("failed-in-fault-dry-run"); cx.tr("(the violation happened in the dry run of this case, i.e. without the injected fault)"); }
+    else if (n == 0) { cx.label("no-throw-points"); ctl.plan = faulty; ctl.plan.anon_fault = -1; ctl.replaying_picks = true; ctl.pick_pos = 0; }
+    else { ctl.plan = faulty; ctl.plan.anon_fault = k % n; ctl.replaying_picks = true; ctl.pick_pos = 0; cx.label("fault-position-from-dry-run"); cx.desc += vk::sfmt(" [throw point #%ld of the %ld met by the fault-free run]", k % n, n); }
+  }
   Plan saved = ctl.plan;
-  sd.run(sd, ctl);
+  if (!cx.failed) sd.run(sd, ctl);
   Outcome first = ctl.out;
   bool poison_diff = cx.want("C02") && (cx.prop == "C02" || c.chance(1, 6));
   if (poison_diff && !cx.failed) {
